@@ -111,10 +111,42 @@ def run_generator(name, vp, pcm, spec):
     return list(g(vp, pcm))
 
 
+def expected_dims(vp, pcm):
+    """Component (width, height, depth_bits) computed HERE from the video parameters and coding mode, independent of the
+    implementation's compute_dimensions_and_depths: (11.6.2) subsampling/field rules, depth = bit_length(excursion)."""
+    w, h = int(vp["frame_width"]), int(vp["frame_height"])
+    cw, ch = w, h
+    cdf = int(vp["color_diff_format_index"])
+    if cdf == 1:
+        cw = w // 2
+    elif cdf == 2:
+        cw, ch = w // 2, h // 2
+    if int(pcm) == 1:
+        h, ch = h // 2, ch // 2
+    ld, cd = int(vp["luma_excursion"]).bit_length(), int(vp["color_diff_excursion"]).bit_length()
+    return {"Y": (w, h, ld, None), "C1": (cw, ch, cd, None), "C2": (cw, ch, cd, None)}
+
+
+HISTORY = []     # cases already run by this process: a failure may depend on them (stale per-process state)
+
+
+def vin(name, spec):
+    me = (spec["w"], spec["h"], spec["cdf"], spec["pcm"], spec["ss"], json.dumps(spec["range"]))
+    preds = []
+    for i, h in enumerate(HISTORY):
+        x = h["spec"]
+        if x is spec:
+            continue
+        sim = sum(1 for a, b in zip((x["w"], x["h"], x["cdf"], x["pcm"], x["ss"], json.dumps(x["range"])), me) if a == b)
+        if sim >= 4 or (h["generator"] == name and sim >= 3):
+            preds.append((sim, i, h))
+    preds = sorted(sorted(preds, key=lambda p: (-p[0], -p[1]))[:12], key=lambda p: p[1])
+    return {"sequence": [h for (_, _, h) in preds] + [{"generator": name, "spec": spec}]}
+
+
 def well_formed(pics, vp, pcm):
     """The property, stated on the generator's output.  Returns a list of (class, detail)."""
-    cdd = impl()[4]
-    dd = cdd(vp, pcm)
+    dd = expected_dims(vp, pcm)
     errs = []
     if len(pics) < 1:
         errs.append(("no-pictures", "0 pictures"))
@@ -165,7 +197,8 @@ def generator_case(ctx, name, spec, report=True):
     """Run one generator on one format; returns (coq literal or None, failed)."""
     np, t, pg, cc, cdd, VideoParameters, ssd = impl()
     vp, pcm = build_vp(spec)
-    inp = {"generator": name, "spec": spec}
+    inp = vin(name, spec)
+    HISTORY.append({"generator": name, "spec": spec})
     try:
         with warnings.catch_warnings():
             warnings.simplefilter("ignore")
@@ -208,7 +241,7 @@ def run(ctx):
         "ranges: base default / the presets / custom with luma and colour-difference depths 1..63 bits (excursions 2^d-1, 2^(d-1), random "
         "non-powers of two) and offsets 0 .. beyond the excursion .. 2^40, preset pixel aspect ratios, all primaries x matrices x transfer "
         "functions at random; num_frames 1..3.  Non-trivial = distinct (generator, size, subsampling, modes, depths, colour triple).  "
-        "Oracle: >= 1 picture, even count for fields, pic_num 0..n-1, each component exactly the coded size, every sample a Python int in "
+        "Sequences: families of a base format and siblings differing in exactly one of luma/colour-difference excursion, offsets, width, height, subsampling, coding mode, scan, run one after the other in this process (stale per-process state); a violation's input is the sequence of similar earlier cases + the failing one.  Expected sizes/depths are computed by the harness itself.  Oracle: >= 1 picture, even count for fields, pic_num 0..n-1, each component exactly the coded size, every sample a Python int in "
         "[0, 2^depth).  Correspondence: counts/numbering/sizes of those runs, clip of float_to_int_clipped on special floats, "
         "progressive_to_pictures on labelled lines.  Separate probe at 64/65-bit depths.")
     n_formats = ctx.pick(160, 3000)
@@ -237,6 +270,38 @@ def run(ctx):
                     metas.append({"generator": c["generator"], "spec": c["spec"]})
             except Exception as e:
                 ctx.note("corpus file %s: %r" % (n, e))
+    # sequences of sibling formats (share everything but one parameter) through this one process: stale per-process state
+    fam = []
+    for _ in range(ctx.pick(8, 120)):
+        base = gen_spec(rng, max_w=8, max_h=8)
+        dl, dc = rng.randint(1, 40), rng.randint(1, 40)
+        base.update({"w": rng.choice([2, 4]), "h": 4, "colour": None, "par": None,
+                     "range": ["custom", str(rng.choice([0, 16])), str(excursion_for_depth(rng, dl)), str(rng.choice([0, 128])), str(excursion_for_depth(rng, dc))]})
+        sibs = [base]
+        for idx, d in ((2, dl), (4, dc)):
+            for nd in (min(63, d + rng.choice([1, 3, 8, rng.randint(1, 16)])), max(1, d - rng.choice([1, 3, 8]))):
+                if nd != d:
+                    r = list(base["range"])
+                    r[idx] = str(excursion_for_depth(rng, nd))
+                    sibs.append(dict(base, range=r))
+        for idx in (1, 3):
+            r = list(base["range"])
+            r[idx] = str(int(r[idx]) + rng.choice([1, 100]))
+            sibs.append(dict(base, range=r))
+        sibs.append(dict(base, w=base["w"] + 2))
+        sibs.append(dict(base, h=base["h"] + 4))
+        sibs.extend(dict(base, cdf=c) for c in (0, 1, 2) if c != base["cdf"])
+        sibs.append(dict(base, pcm=1 - base["pcm"]))
+        sibs.append(dict(base, ss=1 - base["ss"]))
+        rng.shuffle(sibs)
+        fam.extend(sibs)
+    for spec in fam:
+        for name in ("mid_gray", "white_noise", "linear_ramps"):
+            lit, failed = generator_case(ctx, name, spec)
+            ctx.count(1, key=("family", name, spec["w"], spec["h"], spec["cdf"], spec["pcm"], spec["ss"], json.dumps(spec["range"])), bucket="family " + name)
+            if lit is not None:
+                lits.append(lit)
+                metas.append({"generator": name, "spec": spec})
     for k, spec in enumerate(specs):
         names = GEN_NAMES
         for name in dict.fromkeys(names):
@@ -347,7 +412,19 @@ def replay(ctx, data):
     print("replaying", data.get("key"), json.dumps(inp)[:600])
     np, t, pg, cc, cdd, VideoParameters, ssd = impl()
     bad = False
-    if "generator" in inp:
+    if "sequence" in inp:
+        for i, step in enumerate(inp["sequence"]):      # the whole sequence in THIS fresh process, in order
+            vp, pcm = build_vp(step["spec"])
+            try:
+                with warnings.catch_warnings():
+                    warnings.simplefilter("ignore")
+                    pics = run_generator(step["generator"], vp, pcm, step["spec"])
+                errs = well_formed(pics, vp, pcm)
+            except Exception as e:
+                errs = [("raises", repr(e))]
+            print(" step %d/%d %s %s -> %s" % (i + 1, len(inp["sequence"]), step["generator"], json.dumps(step["spec"])[:200], errs or "well-formed"))
+            bad = bad or bool(errs)
+    elif "generator" in inp:
         vp, pcm = build_vp(inp["spec"])
         print("  format:", {k: (int(v) if not isinstance(v, bool) else v) for k, v in vp.items()}, "pcm", int(pcm))
         try:
